@@ -176,33 +176,15 @@ Proof. exact (conj color_values_256_xterm (conj color_values_88_xterm lengths_25
 Print Assumptions rgb_tables_match_xterm.
 
 (* get_rgb_values of any constructed specification, in terms of what it reports: None for 'default',
-   the xterm basic colour for a basic name, the three bytes for '#rrggbb', the xterm palette entry for
-   the palette number that the reported description parses to -- PARTIAL: proved when no basic colour
-   stands beside a true colour *)
-Theorem rgb_matches_xterm_unmixed :
+   the xterm basic colour for a basic name (also beside a true colour), the three bytes for '#rrggbb',
+   the xterm palette entry for the palette number that the reported description parses to *)
+Theorem rgb_matches_xterm :
   forall D fg bg v fd fs bd,
     Forall (wf_part (mode_of D)) fg -> wf_desc (mode_of D) bg -> attrspec_new fg bg D = ROk v ->
     foreground v = Ok (fd, fs) -> background v = Ok bd ->
-    (attr_colors v = TRUE_DEPTH -> is_basic_desc fd = false /\ is_basic_desc bd = false) ->
     get_rgb_values v = Ok (expected_rgb (attr_colors v) fd, expected_rgb (attr_colors v) bd).
-Proof. exact ColoursRgb.rgb_matches_xterm_unmixed. Qed.
-Print Assumptions rgb_matches_xterm_unmixed.
-
-(* the full statement (no premise) is FALSE of the code as it is: witness '#123456' on 'dark red' *)
-Definition rgb_matches_xterm_full : Prop := ColoursRgb.rgb_matches_xterm_full.
-Theorem rgb_matches_xterm_refuted :
-  exists D fg bg v fd fs bd,
-    Forall (wf_part (mode_of D)) fg /\ wf_desc (mode_of D) bg /\ attrspec_new fg bg D = ROk v /\
-    foreground v = Ok (fd, fs) /\ background v = Ok bd /\
-    get_rgb_values v <> Ok (expected_rgb (attr_colors v) fd, expected_rgb (attr_colors v) bd).
-Proof.
-  exists TRUE_DEPTH, [PCol (DTrue 1193046)], (DBasic 1).
-  eexists. eexists. eexists. eexists.
-  split; [constructor; [cbn; lia|constructor]|]. split; [cbn; lia|].
-  split; [vm_compute; reflexivity|]. split; [vm_compute; reflexivity|]. split; [vm_compute; reflexivity|].
-  vm_compute. discriminate.
-Qed.
-Print Assumptions rgb_matches_xterm_refuted.
+Proof. exact ColoursRgb.rgb_matches_xterm. Qed.
+Print Assumptions rgb_matches_xterm.
 
 (* get_rgb_values never raises on a constructed specification *)
 Theorem rgb_never_raises :
@@ -227,36 +209,16 @@ Theorem colors_minimal :
 Proof. exact ColoursMore.colors_minimal. Qed.
 Print Assumptions colors_minimal.
 
-(* the reported depth does express the specification -- PARTIAL: proved unless the specification was
-   declared with 2^24 colours and uses no true colour *)
-Theorem colors_expresses_partial :
-  forall D fg bg v,
-    Forall (wf_part (mode_of D)) fg -> wf_desc (mode_of D) bg -> attrspec_new fg bg D = ROk v ->
-    (D = TRUE_DEPTH -> attr_colors v = TRUE_DEPTH) ->
-    exists f b, foreground v = Ok f /\ background v = Ok b /\
-      attrspec_new (parts_of_foreground f) b (attr_colors v) = ROk v.
-Proof. exact colors_expresses_when. Qed.
-Print Assumptions colors_expresses_partial.
-
-(* the full statement is FALSE of the code as it is: 'dark red' declared with 2^24 colours reports
-   depth 16, and 'dark red' at depth 16 is a different packed value (the _HIGH_TRUE_COLOR marker) *)
-Definition colors_expresses_full : Prop :=
+(* and the reported depth does express the specification: constructing from the reported descriptions
+   at the reported depth gives the same packed value (this is where a specification declared with 2^24
+   colours but using none has to drop its depth marker) *)
+Theorem colors_expresses :
   forall D fg bg v,
     Forall (wf_part (mode_of D)) fg -> wf_desc (mode_of D) bg -> attrspec_new fg bg D = ROk v ->
     exists f b, foreground v = Ok f /\ background v = Ok b /\
       attrspec_new (parts_of_foreground f) b (attr_colors v) = ROk v.
-Theorem colors_expresses_refuted :
-  exists D fg bg v f b,
-    Forall (wf_part (mode_of D)) fg /\ wf_desc (mode_of D) bg /\ attrspec_new fg bg D = ROk v /\
-    foreground v = Ok f /\ background v = Ok b /\
-    attrspec_new (parts_of_foreground f) b (attr_colors v) <> ROk v.
-Proof.
-  exists TRUE_DEPTH, [PCol (DBasic 1)], DDefault. eexists. eexists. eexists.
-  split; [constructor; [cbn; lia|constructor]|]. split; [exact I|].
-  split; [vm_compute; reflexivity|]. split; [vm_compute; reflexivity|]. split; [vm_compute; reflexivity|].
-  vm_compute. discriminate.
-Qed.
-Print Assumptions colors_expresses_refuted.
+Proof. exact rebuild_at_reported_depth. Qed.
+Print Assumptions colors_expresses.
 
 (* ===== clause 5: rejection only with the library's own error ===== *)
 
@@ -295,6 +257,17 @@ Proof.
   split; [constructor; [cbn; split; [lia|discriminate]|repeat constructor]|]. split; [cbn; split; [lia|discriminate]|].
   eexists. split; [vm_compute; reflexivity|]. vm_compute. repeat split.
 Qed.
+
+Example mixed_true_and_basic :
+  (* AttrSpec('#123456', 'dark red', 2**24).get_rgb_values() == (0x12, 0x34, 0x56, 205, 0, 0) *)
+  exists v, attrspec_new [PCol (DTrue 1193046)] (DBasic 1) TRUE_DEPTH = ROk v /\
+    get_rgb_values v = Ok (Some (18, 52, 86), Some (205, 0, 0)) /\ attr_colors v = TRUE_DEPTH.
+Proof. eexists. split; [vm_compute; reflexivity|]. vm_compute. split; reflexivity. Qed.
+
+Example marker_dropped :
+  (* AttrSpec('dark red', 'default', 2**24) == AttrSpec('dark red', 'default', 16) *)
+  attrspec_new [PCol (DBasic 1)] DDefault TRUE_DEPTH = attrspec_new [PCol (DBasic 1)] DDefault 16.
+Proof. vm_compute. reflexivity. Qed.
 
 Example degrade_somewhere :
   parse_color_88 (DTrue 14540253) = Ok (Some 58)            (* '#dddddd' at 88 colours -> '#ccc' *)
